@@ -279,7 +279,50 @@ def run(prog: Program, L: Ledger) -> None:
                 elt_ok = norm(rep_c.elt) == f"self.moves[{norm(g1.target)}].minimum_count"
             okc = same_gen and elt_ok
         ok_forced = norm(rep_a) == norm(dcomp) and okc
-    L.check(ok_forced, "M3", "yield_moves:forced-multiset", f"{rel}:{dstmt.lineno}", f"forced multiset is `{ftxt[:100]}`, not repeat(due, [minimum_count of each due move])",
+    cex_ = ""
+    if not ok_forced:
+        # the spelling is not one of the recognised ones: the extracted expression (locals inlined) is evaluated by the checker
+        # on every small model table — three stored moves, intervals 1–3, minimum counts 0–2, steps 0–6 — and compared as a
+        # multiset with "each due move, minimum_count times".  Only the closed form is evaluated, over checker-owned stand-ins;
+        # anything it needs beyond them ends the attempt as an analysis error, never as a verdict.
+        import itertools as _it
+        import types as _types
+
+        import numpy as _np
+
+        fe_ = inl.inline(forced_e)
+        code_ = compile(ast.fix_missing_locations(ast.Expression(body=fe_)), "<forced multiset>", "eval")
+        np_ns = _types.SimpleNamespace(repeat=_np.repeat, array=_np.array, asarray=_np.asarray, arange=_np.arange, concatenate=_np.concatenate, int_=_np.int_, fromiter=_np.fromiter)
+        agree = True
+        n_eval = 0
+        try:
+            for ivs in _it.product((1, 2, 3), repeat=3):
+                for mcs in _it.product((0, 1, 2), repeat=3):
+                    table = {f"m{k}": _types.SimpleNamespace(interval=ivs[k], minimum_count=mcs[k], probability=1.0, name=f"m{k}") for k in range(3)}
+                    for step_ in range(0, 7):
+                        model = _types.SimpleNamespace(moves=table, step_count=step_, max_cycles=12)
+                        ns = {"__builtins__": {}, "self": model, "np": np_ns, "list": list, "len": len, "dict": dict, "zip": zip, "sum": sum, "int": int, "tuple": tuple,
+                              "sorted": sorted, "range": range, "enumerate": enumerate, "any": any, "all": all, "set": set, "min": min, "max": max}
+                        try:
+                            got = sorted(str(x) for x in eval(code_, ns))  # noqa: S307 - extracted closed form over stand-ins
+                        except (ValueError, IndexError, KeyError, ZeroDivisionError) as exc_:
+                            # the closed form itself fails on a legal table: that is what the step would do
+                            agree = False
+                            cex_ = f" (intervals {ivs}, minimum counts {mcs}, step {step_}: raises {type(exc_).__name__}: {str(exc_)[:60]})"
+                            raise StopIteration from None
+                        want = sorted(nm for nm, ms in table.items() if step_ % ms.interval == 0 for _ in range(ms.minimum_count))
+                        n_eval += 1
+                        if got != want:
+                            agree = False
+                            cex_ = f" (intervals {ivs}, minimum counts {mcs}, step {step_}: forced {got}, expected {want})"
+                            raise StopIteration
+        except StopIteration:
+            pass
+        except Exception as exc:  # the closed form needs something outside the stand-ins
+            raise AnalysisError(f"yield_moves: forced multiset `{ftxt[:80]}` is outside the recognised spellings and could not be evaluated on the model tables ({type(exc).__name__}: {exc})") from exc
+        ok_forced = agree
+        L.extra["forced_multiset_model_evaluations"] = n_eval
+    L.check(ok_forced, "M3", "yield_moves:forced-multiset", f"{rel}:{dstmt.lineno}", f"forced multiset is `{ftxt[:100]}`, not repeat(due, [minimum_count of each due move]){cex_}",
             "a due move is attempted fewer times than its minimum count", ftxt[:160])
     # slot indices: rng.choice(arange(max_cycles), size=len(forced), replace=False)
     itxt = norm(idx_e)
